@@ -9,7 +9,10 @@ correspondence : (1) Kekule.__prepare_rings == Model.Kekule.prepare_rings on an 
                  (3) the driver model kekule_driver re-plays kekule() given the real search result;
                  (4) the search itself: the arguments __kekule_full passes to _kekule_component are recorded and the first
                  forms the real generator yields (with and without the pyridine buffer), or its InvalidAromaticRing, are
-                 compared with Model.Kekule.kekule_component.
+                 compared with Model.Kekule.kekule_component;
+                 (5) thiele() with fix_tautomers False and True == Model.Thiele.thiele_model / thiele_model_t;
+                 (6) the decidable hypotheses chain_hyp of Proofs.KekuleLink.kekule_chain (search soundness composed with
+                 kekule_rel_core) are evaluated on every input with the arguments the real code computed.
 search         : independent of the model, on the real code: atoms / charges / radicals / connectivity unchanged, idempotence
                  of both conversions, fixpoints of the compositions, every enumerated form aromatises to the same
                  canonical string (unsaturated four-membered rings excluded and counted), valence and hydrogen counts of
@@ -33,7 +36,7 @@ from coqfmt import zraw, b, lst, opt, tup
 replay = common.generic_replay
 
 PRELUDE = '''From Model Require Import Graph Kekule Thiele.
-From Proofs Require Import KekuleSound.
+From Proofs Require Import KekuleSound KekuleLink.
 Import ListNotations.
 Open Scope Z_scope.
 Definition A (n num chg h : Z) : Z * atom := (n, mkAtom num None chg false (Some h) None).
@@ -617,7 +620,25 @@ class Pipe:
             prep_raises = True
         ck.case(('prep', tag, label), nontrivial=aromatic_input and not prep_raises)
         if not prep_raises and rings and (full or kind in ('curated', 'malformed', 'arenes.sdf')):
-            self.component_cases(before, label, m0, cases)
+            comps = self.component_cases(before, label, m0, cases)
+            # the hypotheses of Proofs.KekuleLink.kekule_chain (whole skeleton simple and symmetric, the molecule drawn as
+            # rings / double_bonded / pyrroles say, the components split the skeleton, every component well formed) hold
+            # exactly when the aromatic bonds of the input are the bonds of the skeleton: then "kekule() output is accepted
+            # by kekule_rel_core" is the theorem, not only the per-output case below
+            arom = {frozenset((n, k_)) for n, nb in before._bonds.items() for k_, bd in nb.items() if int(bd) == 4}
+            skel = {frozenset((n, k_)) for n, ms in rings.items() for k_ in ms}
+            well = arom == skel and all(component_wf(R, d_, p_) for R, d_, _, p_ in comps)
+            split_bad = sorted(n for R, *_ in comps for n in R) != sorted(rings) or \
+                any(R[n] != rings[n] for R, *_ in comps for n in R if n in rings) or \
+                any(set(d_) != set(db) & set(R) or set(p_) != set(pyr) & set(R) for R, d_, _, p_ in comps)
+            if split_bad:
+                self.bad(True, f'kekule-components:{smi}', '__kekule_full does not pass every skeleton atom to exactly one _kekule_component call with its rows and the two sets restricted to it',
+                         label, [(sorted(R), sorted(d_), sorted(p_)) for R, d_, _, p_ in comps], [sorted(rings), sorted(db), sorted(pyr)], 'partition of the skeleton', code_of('m.kekule()'))
+            ct = lst([tup(lst([tup(zraw(n), lst(ms, zraw)) for n, ms in R.items()]), lst(sorted(d_), zraw), lst(sorted(p_), zraw)) for R, d_, _, p_ in comps])
+            cases.append((f'Bool.eqb (chain_hyp g{i} {rt} {lst(sorted(db), zraw)} {lst(sorted(pyr), zraw)} {ct}) {b(well)}',
+                          ('kekule_chain hypotheses', label, list(m0._atoms)), 'prep'))
+            ck.case(('chain', tag, label), nontrivial=well)
+            ck.count('kekule_chain: hypotheses ' + ('hold (acceptance of the kekule() output is a theorem)' if well else 'do not hold (mis-drawn input: per-output check only)'))
         if misdrawn:
             ck.count('mis-drawn ring repaired by __prepare_rings (relation applied to Model.repair of the input)')
 
@@ -865,6 +886,7 @@ class Pipe:
                 self.ck.case(('search', label, tuple(m0._atoms), bs, tuple(rings)), nontrivial=bool(ys))
                 self.ck.count('search: component ' + ('satisfies' if component_wf(rings, dbl, pyr) else 'does not satisfy') + ' the hypotheses of kekule_component_sound')
                 self.ck.count(f'search: buffer={bs}: {"InvalidAromaticRing" if raised else str(len(ys)) + " form(s) compared"}')
+        return rec
 
     def report_valence(self, src, res, ve, ve_before, dom, label, code):
         """valence errors of a Kekule result `res` of `src`, keyed by mechanism"""
@@ -1517,7 +1539,7 @@ def run(ck):
     ck.extra['seconds'] = {'proof steps': round(t_proof - t00, 1), 'grid': round(t_grid - t_proof, 1), 'real code + oracles': round(t_py - t_grid, 1), 'coq cases': round(time.time() - t_py, 1)}
     prep_failed = [c for c in failed if c[2] == 'prep']
     rel_failed = [c for c in failed if c[2] != 'prep']
-    ck.oblige('correspondence: Kekule.__prepare_rings == Model.Kekule.prepare_rings (atom-state grid + whole molecules), kekule() == kekule_driver given the search result, _kekule_component == kekule_component (molecules + generated components), thiele(fix_tautomers=False) == Model.Thiele.thiele_model',
+    ck.oblige('correspondence: Kekule.__prepare_rings == Model.Kekule.prepare_rings (atom-state grid + whole molecules), kekule() == kekule_driver given the search result, _kekule_component == kekule_component (molecules + generated components), thiele(fix_tautomers=False / True) == Model.Thiele.thiele_model / thiele_model_t, hypotheses of kekule_chain (chain_hyp) hold exactly on the inputs whose aromatic bonds are the skeleton bonds',
               ok and not prep_failed, 'correspondence', log[-1500:] or str([c[1] for c in prep_failed[:5]]))
     ck.oblige('every kekule() / enumerate_kekule() / thiele() output is accepted by the Coq checkers kekule_rel / thiele_rel', ok and not rel_failed,
               'correspondence', str([c[1] for c in rel_failed[:5]]))
